@@ -205,7 +205,7 @@ def treeFeaturesBelow {α L : Type} : Tree α L → Nat → Prop
   | .leaf _, _ => True
   | .node f _ lo hi, p => f < p ∧ treeFeaturesBelow lo p ∧ treeFeaturesBelow hi p
 
-theorem tree_descend_total {α L : Type} [LT α] [DecidableLT α] (t : Tree α L) (x : List α)
+theorem tree_descend_total {α L : Type} [LE α] [DecidableLE α] (t : Tree α L) (x : List α)
     (h : treeFeaturesBelow t x.length) : ∃ l, treeDescend t x = some l := by
   induction t with
   | leaf l => exact ⟨l, rfl⟩
@@ -222,7 +222,7 @@ def treeAnyLeaf {α L : Type} : Tree α L → L
 
 /-- decision tree: the batch loop is the per-row descent, and it is total on rows of the
 fitted width -/
-theorem tree_batch_eq_map {α L : Type} [LT α] [DecidableLT α] (t : Tree α L) (rows : List (List α))
+theorem tree_batch_eq_map {α L : Type} [LE α] [DecidableLE α] (t : Tree α L) (rows : List (List α))
     (p : Nat) (ht : treeFeaturesBelow t p) (hrows : ∀ r ∈ rows, r.length = p) :
     ∃ g : List α → L, (∀ r ∈ rows, treeDescend t r = some (g r)) ∧
       treeBatch t rows = some (rows.map g) := by
@@ -235,7 +235,7 @@ theorem tree_batch_eq_map {α L : Type} [LT α] [DecidableLT α] (t : Tree α L)
     obtain ⟨l, hl⟩ := tree_descend_total t r (by rw [hrows r hr]; exact ht)
     simp [hl]
 
-example : treeBatch (LinfaSpec.Predict.Tree.node 0 (5 : Int) (.leaf 1) (.node 1 2 (.leaf 2) (.leaf 3))) [[4, 0], [5, 1], [5, 2]]
+example : treeBatch (LinfaSpec.Predict.Tree.node 0 (5 : Int) (.leaf 1) (.node 1 2 (.leaf 2) (.leaf 3))) [[5, 0], [6, 2], [6, 3]]
     = some [1, 2, 3] := by decide
 
 /-! ## What `batch = map row` gives: composition, order and multiplicity of the batch do not matter -/
